@@ -5,7 +5,7 @@ import z3
 
 from symex.case import Case
 from symex.values import SList
-from entity_query_language import an, entity, let, symbolic_mode, concatenate, in_, not_, contains, or_, and_
+from entity_query_language import an, entity, let, symbolic_mode, concatenate, in_, not_, contains, or_, and_, flatten
 from props.c16 import Par, Elem
 
 ASSUMPTIONS = [
@@ -73,6 +73,11 @@ class C17(Case):
                 items = [c for j, c in enumerate(seq) if mk.truth("p%d.items#%d" % (i, j))]
             else:
                 items = mk.slist("p%d.items" % i, seq)
+            if sp.get("nested"):
+                # the parent's collection holds TRAYS (a list and a tuple) of elements: concatenate(flatten(p.items)) is the list of
+                # the elements of all trays (real lists only)
+                half = len(items) // 2
+                items = [list(items[:half]), tuple(items[half:])]
             parents.append(Par(k=i, items=items, name="p%d" % i))
         foreign = Elem(w=99, name="foreign")
         outer = base + [foreign]
@@ -80,13 +85,15 @@ class C17(Case):
         if sp["kind"] in HOLDER:
             data["holders"] = [Holder(ref=outer[mk.choice("h%d.ref" % i, len(outer))], name="h%d" % i) for i in range(2)]
         snapshot = [list(p_.items) if isinstance(p_.items, list) else None for p_ in parents]
+        if sp.get("nested"):
+            snapshot = [[e_ for tray in p_.items for e_ in tray] for p_ in parents]
         kind = sp["kind"]
         try:
             with symbolic_mode():
                 # dup_parent: the supplied domain names the first parent a second time (C04: such a domain behaves the same on
                 # every evaluation; whether the repeated object counts once or twice is not fixed by the statements)
                 p = let(Par, domain=(parents + [parents[0]]) if sp.get("dup_parent") else parents)
-                conc = concatenate(p.items)
+                conc = concatenate(flatten(p.items)) if sp.get("nested") else concatenate(p.items)
                 if kind == "value":
                     q = an(entity(conc))
                 elif kind in COMBINED:
@@ -106,8 +113,9 @@ class C17(Case):
             out = {"first": self._view(res, data)}
             if sp.get("twice"):
                 out["second"] = self._view(list(q.evaluate()), data)
-            data["unchanged"] = all(s_ is None or (len(s_) == len(p_.items) and all(a is b for a, b in zip(s_, p_.items)))
-                                    for s_, p_ in zip(snapshot, parents))
+            now = [[e_ for tray in p_.items for e_ in tray] if sp.get("nested") else p_.items for p_ in parents]
+            data["unchanged"] = all(s_ is None or (len(s_) == len(n_) and all(a is b for a, b in zip(s_, n_)))
+                                    for s_, n_ in zip(snapshot, now))
             data["snapshot"] = snapshot
         except Exception as ex:
             return data, ["exc", type(ex).__name__, str(ex)[:200]]
@@ -131,7 +139,7 @@ class C17(Case):
             it = par.items
             if isinstance(it, SList):
                 out += list(zip(it.candidates, it.present))
-            elif isinstance(it, list):
+            elif isinstance(it, list) or self.spec.get("nested"):
                 snap = data.get("snapshot")
                 orig = snap[data["parents"].index(par)] if snap else it   # the collection as the user built it
                 out += [(c, alg.const(True)) for c in orig]
@@ -212,6 +220,9 @@ def shapes(tier, seed):
         out.append(dict(kind=kind, parents=2, cands=nc))
     out.append(dict(kind="value", parents=2, cands=nc, twice=True, lists="real", dup_parent=True))
     out.append(dict(kind="value", parents=1, cands=2, twice=True, lists="real", dup_parent=True))
+    for kind in ("value", "in", "not_in", "contains"):
+        out.append(dict(kind=kind, parents=2, cands=nc, lists="real", nested=True))
+    out.append(dict(kind="value", parents=2, cands=nc, lists="real", nested=True, repeat=True, twice=True))
     for kind in HOLDER:
         out.append(dict(kind=kind, parents=2, cands=2))
     for kind in COMBINED:
